@@ -447,6 +447,8 @@ var strPool = []string{
 	"", "a", "b", "ab", "hello", "\u00e9", "e\u0301", "\u00c5", "A\u030a", "\u212b",
 	"\uac00", "\u1100\u1161", "x\u0301y", "\U0001F44D", "\U0001F44D\U0001F3FD", "line\r\n", "a,b", "\u0301",
 	"zebra", "Z", "10", "true",
+	// long enough for the wider string headers of the encodings (more than 31 and more than 255 bytes)
+	strings.Repeat("long-\u00e9-", 6), strings.Repeat("xy\u0301z ", 60),
 }
 
 func genStr(c *Ctx) string { return strPool[c.G(len(strPool))] }
